@@ -13,6 +13,7 @@ import Driver.C17
 import Driver.C03
 import Driver.C18
 import Driver.C20
+import Driver.C19
 open Kv
 
 structure DState where
@@ -41,6 +42,7 @@ def dispatch (st : DState) (prop : String) (l : Line) : DState × String :=
   | "C17" => let (s, r) := Drv.C17.step st.c17 l; ({ st with c17 := s }, r)
   | "C03" => let (s, r) := Drv.C03.step st.c03 l; ({ st with c03 := s }, r)
   | "C18" => (st, Drv.C18.step l)
+  | "C19" => (st, Drv.C19.step l)
   | _ => (st, "bad-op")
 
 def main : IO Unit := driverMain dispatch {}
